@@ -42,9 +42,11 @@ Admissible(ctx, pre, abs, X) ==
             /\ Ok(c)
             /\ (c = dotted /\ ~HasLeadDot(pre)) => (~Ok(plain) /\ NeedsShield(DropLeadDot(X)))}
 
-(* Results of dot-segment removal.  A segment list made of one empty segment has no *)
-(* text of its own under RFC 3986 5.2.4 ("/./" becomes "/", "./" becomes ""): there *)
-(* the rendering of the empty list is admissible as well.                           *)
+(* Results of dot-segment removal.  A segment list made of one empty segment and  *)
+(* the empty list denote the same directory under RFC 3986 5.2.4 ("/./" becomes   *)
+(* "/", "./" becomes ""): there the renderings of both are admissible.            *)
 AdmissibleN(ctx, pre, abs, X) ==
-    Admissible(ctx, pre, abs, X) \cup (IF X = << <<>> >> THEN Admissible(ctx, pre, abs, <<>>) ELSE {})
+    IF DropLeadDot(X) = <<>> \/ DropLeadDot(X) = << <<>> >>
+    THEN Admissible(ctx, pre, abs, <<>>) \cup Admissible(ctx, pre, abs, << <<>> >>)
+    ELSE Admissible(ctx, pre, abs, X)
 =============================================================================
